@@ -102,8 +102,10 @@ template<class T> struct Driver {
       default: if (seqnext > U) seqnext = 1; return seqnext++;                               // distinct items, equal weights, cyclic
     }
   }
+  bool bigseg = false;
   long draw_weight() {
     if (profile == 3) return 1;
+    if (bigseg) return g.chance(70) ? 1 : g.range(1, 10);
     int c = (int)g.below(100);
     if (c < 60) return 1; if (c < 85) return g.range(1, 10); if (c < 97) return g.range(1, 1000); return g.range(1000, 20000);
   }
@@ -231,29 +233,32 @@ template<class T> struct Driver {
     scal(e, j).raw("rows", rows_json(rows(*sk[j]))).emit();
   }
 
-  void segment(long seg, long events, int maxlg) {
+  // big: one long segment on a map beyond the purge sample size (lg_max 11: 1537 active entries at a purge, sampled median)
+  void segment(long seg, long events, int maxlg, bool big = false) {
     Ev("Begin").i("seg", seg).str("type", Codec<T>::name()).emit();
     rev.clear();
     for (int i = 0; i < NS; i++) { sk[i].reset(); prev[i].clear(); ver[i] = 0; restored[i] = false; }
     for (int b = 0; b < NB; b++) blive[b] = false;
     twin_a = twin_b = -1; twin_left = 0;
     int base = (int)std::min(g.range(3, maxlg), g.range(3, maxlg));
+    if (big) base = maxlg;
     long cap = (3L << base) / 4;
-    profile = (int)g.below(4);
+    profile = big ? 1 + (int)g.below(2) : (int)g.below(4);
     static const double UF[] = {0.6, 1.5, 2.5, 4.0};
-    U = std::max(8L, (long)(cap * UF[g.below(4)]));
+    U = std::max(8L, (long)(cap * UF[big ? 3 : g.below(4)]));
     if (profile == 3) U = std::max(U, 3 * (cap + 1));
     double sexp = 0.7 + 0.3 * g.below(4);
     cdf.assign(U, 0); double z = 0;
     for (long k = 1; k <= U; k++) { z += 1.0 / std::pow((double)k, sexp); cdf[k - 1] = z; }
     for (auto& c : cdf) c /= z;
     seqnext = 1; for (auto& h : hot) h = g.range(1, U);
-    long n_events = std::max(events, std::min(6 * cap, 12000L));
+    long n_events = big ? 7 * cap : std::max(events, std::min(6 * cap, 3000L));
+    bigseg = big;
     auto lgdraw = [&]() { return g.chance(65) ? base : (int)g.range(3, maxlg); };
     mk(0, base);
     int pending_merge_src = -1, pending_ser = -1;
     for (long n = 0; n < n_events; n++) {
-      int i = g.chance(55) ? 0 : (int)g.below(NS);
+      int i = g.chance(big ? 85 : 55) ? 0 : (int)g.below(NS);
       if (twin_left > 0) i = twin_a;
       if (!sk[i]) { mk(i, lgdraw()); continue; }
       int op = (int)g.below(100);
@@ -291,7 +296,7 @@ template<class T> struct Driver {
         int j = (int)g.below(NS);
         if (j != i && twin_left == 0) copy(i, j);
       } else if (op < upd + 14) {
-        if (twin_left == 0 && g.chance(40)) mk(i, lgdraw());
+        if (twin_left == 0 && g.chance(40) && !(big && i == 0)) mk(i, lgdraw());
       } else if (op < upd + 14 + serde_pct) {
         ser(i, (int)g.below(NB));
       } else {
@@ -320,11 +325,13 @@ int main(int argc, char** argv) {
   long events = vt::argl(argc, argv, "--events", 400);
   int maxlg = (int)vt::argl(argc, argv, "--maxlg", 8);
   int serde_pct = (int)vt::argl(argc, argv, "--serde", 3);
+  long big = vt::argl(argc, argv, "--big", 0);
   vt::open_out(vt::arg(argc, argv, "--out", "/dev/stdout"));
   vt::Rng g(seed);
   for (long seg = 0; seg < segments; seg++) {
-    if ((seg + seed) % 2 == 0) { Driver<int64_t> d(g, serde_pct); d.segment(seg, events, maxlg); }
-    else { Driver<std::string> d(g, serde_pct); d.segment(seg, events, maxlg); }
+    bool b = seg < big;
+    if ((seg + seed) % 2 == 0) { Driver<int64_t> d(g, serde_pct); d.segment(seg, events, maxlg, b); }
+    else { Driver<std::string> d(g, serde_pct); d.segment(seg, events, maxlg, b); }
   }
   vt::close_out();
   fprintf(stderr, "fi_rec: %ld events\n", vt::g_events);
